@@ -342,7 +342,7 @@ def check(ctx, case, preempt=None):
                     idx = -1
                 if key in seen and idx < seen[key]:
                     ctx.finding('stale-update-after-newer-one', sub,
-                                f'conn {ci}: {spec} delivered {val!r} (cache state #{idx}) after state #{seen[key]}; messages {[(m[1], m[2], m[3] and m[3][0]) for m in msgs][:12]!r}')
+                                f'conn {ci}: {spec} delivered {val!r} (cache state #{idx}) after state #{seen[key]}; messages {[(m[1], m[2], (m[3][0] if isinstance(m[3], list) and m[3] else None)) for m in msgs][:12]!r}')
                     return
                 seen[key] = idx
                 last[key] = val
@@ -427,7 +427,7 @@ def check(ctx, case, preempt=None):
         ctx.nt(s.trace_hash())
     ctx.label(f'switches:{min(s.switches // 10 * 10, 100)}', f'conns:{len(case["conns"])}')
     ctx.sample({'conns': case['conns'], 'drivers': case['drivers'], 'schedule_len': len(case.get('schedule', ())), 'context_switches': s.switches,
-                'log_c0': [(m[1], m[2], m[3] and m[3][0] if isinstance(m[3], list) else None) for m in parse(out['logs']['c0'])][:10]}, every=197)
+                'log_c0': [(m[1], m[2], (m[3][0] if isinstance(m[3], list) and m[3] else None) if isinstance(m[3], list) else None) for m in parse(out['logs']['c0'])][:10]}, every=197)
 
 
 def same(tval, val):
